@@ -775,7 +775,9 @@ class C08(Cfg):
             return ("violation", "an operation failed merely because another one was running")
         if v.get("L") == "0" and not (set(v["K"]) & self.listed):
             return ("violation", "no sequential order of the operations that respects real time explains the observed results and final state")
-        if v.get("I") == "0":
+        if v.get("I") == "0" and not (set(v["K"]) & self.listed):
+            # under D15 (shared cache) a statement in the middle of an operation can fail with "table is locked"; a
+            # block that ignores the error then commits the operation's partial effects - a consequence of the listed finding
             return ("violation", "the tables are structurally inconsistent after the concurrent round")
         return None
 
